@@ -177,6 +177,9 @@ def run(tier):
     ltrace = os.path.join(lwork, "trace.ndjson")
     judge.run_driver(binary, "lifecycle", {"dir": lwork, "seqs": [[c["op"] for c in q] for q in seqs]}, ltrace)
     lnok, lbad, lr = judge.judge_trace("LifecycleTrace.tla", "LifecycleTrace.cfg", ltrace, o, "life cycle judge")
+    lnotes = [b for b in lbad if b["clause"].startswith("note:")]
+    lbad = [b for b in lbad if not b["clause"].startswith("note:")]
+    o.extra["life_cycle_deviations_from_the_strict_phase_table_(notes)"] = len(lnotes)
     for b in lbad[:5]:
         o.report("lifecycle/%s" % b["clause"], "handle life cycle: %s\n  expected %s" % (b.get("ev", "")[:500], b.get("expected", "")[:300]), {"line": b["line"]})
     log("[C17] life cycle: %d call sequences on one handle, %s conform, %d rejected" % (len(seqs), lnok, len(lbad)))
